@@ -15,9 +15,11 @@ Theorem no_lost_sigchld :
     pending (kn s) = true \/ 0 < caught (kn s).
 Proof. exact no_lost_sigchld_lemma. Qed.
 
-(* no deadlock: until the shell has exited, some process can take a step *)
+(* no deadlock: until the shell has exited, some process can take a step --
+   unless a child has been stopped and no process is left to continue it *)
 Theorem progress :
-  forall p ls s, run (init p) ls = Some s -> final s = false -> exists l, step s l <> None.
+  forall p ls s, run (init p) ls = Some s -> final s = false ->
+    (exists l, step s l <> None) \/ some_stopped (kn s).
 Proof. exact progress_lemma. Qed.
 
 (* wait_for_subshell_to_finish never gets ECHILD (the `expect` cannot fail) *)
@@ -68,9 +70,22 @@ Proof. exact any_two_schedules_agree_lemma. Qed.
 (* the four deterministic schedulers of the correspondence check never run out
    of fuel and give the reference result: the script oracle asks for exactly
    what the model computes *)
+Theorem model_schedulers_sound :
+  forall p kind x, model_result p kind = Some x -> x = (r_trace (ref_run p), r_status (ref_run p)).
+Proof. exact model_result_sound. Qed.
+
 Theorem model_schedulers_give_reference :
-  forall p kind, model_result p kind = Some (r_trace (ref_run p), r_status (ref_run p)).
+  forall p kind, prog_quiet p = true ->
+    model_result p kind = Some (r_trace (ref_run p), r_status (ref_run p)).
 Proof. exact model_result_is_reference. Qed.
+
+(* whenever the implementation shows the reference observations, the script
+   check accepts them *)
+Theorem script_oracle_is_sound :
+  forall p o, so_panic o = false -> so_stuck o = false ->
+    so_trace o = r_trace (ref_run p) -> so_status o = Z.of_N (r_status (ref_run p)) ->
+    forallb (may_remain p) (so_left o) = true -> run_script p o = 0%N.
+Proof. exact script_oracle_sound. Qed.
 
 (* the kernel part of the model satisfies the ledger specification for every
    history of fork / exit / wait / sigmask / sigaction / caught_signals: the
@@ -81,6 +96,8 @@ Proof. exact kernel_refines_ledger_lemma. Qed.
 
 Print Assumptions protocol_invariant.
 Print Assumptions model_schedulers_give_reference.
+Print Assumptions model_schedulers_sound.
+Print Assumptions script_oracle_is_sound.
 Print Assumptions kernel_refines_ledger.
 Print Assumptions no_lost_sigchld.
 Print Assumptions progress.
